@@ -16,7 +16,7 @@ theorem findBlockN_names (x : Name) : ∀ (n : Node) (k : List Node), findBlockN
   | .call .., k, h => by simp [findBlockN] at h
   | .attr .., k, h => by simp [findBlockN] at h
   | .args, k, h => by simp [findBlockN] at h
-  | .defn _ _, k, h => by simp [findBlockN] at h
+  | .defn _ _ _, k, h => by simp [findBlockN] at h
   | .callTag _, k, h => by simp [findBlockN] at h
   | .block nm _ kids, k, h => by
     simp only [findBlockN] at h
@@ -45,12 +45,13 @@ theorem findBlockL_names (x : Name) : ∀ (l : List Node) (k : List Node), findB
       exact fun a ha => by simp [namesL, this ha]
 end
 
-theorem findTopDef_names (x : Name) : ∀ (l : List Node) (k : List Node), findTopDef x l = some k → namesL k ⊆ namesL l
-  | [], k, h => by simp [findTopDef] at h
-  | n :: r, k, h => by
-    have ih := findTopDef_names x r k
+theorem findTopDef_names (x : Name) : ∀ (l : List Node) (ps : List (Name × Option Val)) (k : List Node),
+    findTopDef x l = some (ps, k) → namesL k ⊆ namesL l
+  | [], ps, k, h => by simp [findTopDef] at h
+  | n :: r, ps, k, h => by
+    have ih := findTopDef_names x r ps k
     cases n with
-    | defn nm kids =>
+    | defn nm ps' kids =>
       simp only [findTopDef] at h
       cases hr : findTopDef x r with
       | some k' =>
@@ -60,8 +61,9 @@ theorem findTopDef_names (x : Name) : ∀ (l : List Node) (k : List Node), findT
       | none =>
         simp only [hr] at h
         by_cases e : nm = x
-        · simp only [e, if_true, Option.some.injEq] at h
-          subst h
+        · simp only [e, if_true, Option.some.injEq, Prod.mk.injEq] at h
+          obtain ⟨_, h2⟩ := h
+          subst h2
           exact fun a ha => by simp [namesL, namesN, ha]
         · simp [e] at h
     | text _ => simp only [findTopDef] at h; exact fun a ha => by simp [namesL, ih h ha]
@@ -71,17 +73,17 @@ theorem findTopDef_names (x : Name) : ∀ (l : List Node) (k : List Node), findT
     | block _ _ _ => simp only [findTopDef] at h; exact fun a ha => by simp [namesL, ih h ha]
     | callTag _ => simp only [findTopDef] at h; exact fun a ha => by simp [namesL, ih h ha]
 
-theorem member_names (l : Level) (x : Name) (kind : MKind) (kids : List Node)
-    (h : l.member x = some (kind, kids)) : namesL kids ⊆ namesL l.nodes := by
+theorem member_names (l : Level) (x : Name) (kind : MKind) (ps : List (Name × Option Val)) (kids : List Node)
+    (h : l.member x = some (kind, ps, kids)) : namesL kids ⊆ namesL l.nodes := by
   unfold Level.member at h
   split at h
-  · simp only [Option.some.injEq, Prod.mk.injEq] at h; rw [← h.2]; exact fun _ h => h
+  · simp only [Option.some.injEq, Prod.mk.injEq] at h; rw [← h.2.2]; exact fun _ h => h
   · split at h
-    · rename_i k hk
-      simp only [Option.some.injEq, Prod.mk.injEq] at h; rw [← h.2]; exact findTopDef_names x _ _ hk
+    · rename_i ps' k hk
+      simp only [Option.some.injEq, Prod.mk.injEq] at h; rw [← h.2.2]; exact findTopDef_names x _ _ _ hk
     · split at h
       · rename_i k hk
-        simp only [Option.some.injEq, Prod.mk.injEq] at h; rw [← h.2]; exact findBlockL_names x _ _ hk
+        simp only [Option.some.injEq, Prod.mk.injEq] at h; rw [← h.2.2]; exact findBlockL_names x _ _ hk
       · simp at h
 
 theorem usedNames_level (c : List Level) (t : Nat) (l : Level) (h : c[t]? = some l) :
@@ -106,12 +108,12 @@ theorem invoke_congr (c : List Level) (run1 run2 : Env → List Node → Res)
       cases hm : l.member x with
       | none => simp [hm]
       | some m =>
-        obtain ⟨kind, kids⟩ := m
-        simp only [Option.bind_some, hm, Option.map_some]
+        obtain ⟨kind, ps, kids⟩ := m
+        simp only [Option.bind_some, hm]
         split
         · rfl
         · apply h
-          exact fun a ha => usedNames_level c t l hl (member_names l x kind kids hm ha)
+          exact fun a ha => usedNames_level c t l hl (member_names l x kind ps kids hm ha)
 
 /-- dispatches that agree on the names the chain mentions execute every part of the chain alike -/
 theorem exec_congr (c : List Level) (D1 D2 : Dispatch) (href : D1.ref = D2.ref) (hattr : D1.attr = D2.attr)
@@ -133,8 +135,10 @@ theorem exec_congr (c : List Level) (D1 D2 : Dispatch) (href : D1.ref = D2.ref) 
       cases n with
       | text k => rfl
       | args => rfl
-      | defn _ _ => rfl
-      | callTag _ => rfl
+      | defn _ _ _ => rfl
+      | callTag kids =>
+        simp only [step]
+        exact ih env kids (fun a ha => hn (by simpa [namesN] using ha))
       | attr r x => simp only [step, href, hattr]
       | call r x pos kw =>
         have hx : x ∈ usedNames c := hn (by simp [namesN])
